@@ -40,10 +40,11 @@ VARIABLES folders,   \* existing user folders
           sec,       \* sec[f][s] \in Values \cup {None}
           epoch,     \* epoch[f]: folder key epoch
           aepoch,    \* account password epoch
+          cflips,    \* number of cipher changes of the account (even: AES-GCM, the default; odd: XChaCha20-Poly1305)
           out        \* observation of the last call
 
-vars == <<folders, name, desc, flag, sec, epoch, aepoch, out>>
-View == <<folders, name, desc, flag, sec, epoch, aepoch>>
+vars == <<folders, name, desc, flag, sec, epoch, aepoch, cflips, out>>
+View == <<folders, name, desc, flag, sec, epoch, aepoch, cflips>>
 
 Exists(f) == f \in BuiltIn \/ f \in folders
 Live(f) == {s \in Slots : sec[f][s] # None}
@@ -62,6 +63,7 @@ Init ==
   /\ sec = [f \in AllFolders |-> [s \in Slots |-> None]]
   /\ epoch = [f \in AllFolders |-> 0]
   /\ aepoch = 0
+  /\ cflips = 0
   /\ out = Out("Init", NoDelta, <<>>, {})
 
 ---------------------------------------------------------------------------
@@ -70,19 +72,19 @@ CreateSecret(f, s, v) ==
   /\ On("CreateSecret") /\ Exists(f) /\ ~Used(s)
   /\ sec' = [sec EXCEPT ![f][s] = v]
   /\ out' = Out("CreateSecret", [NoDelta EXCEPT ![f] = <<<<"CreateSecret", s>>>>], <<>>, {})
-  /\ UNCHANGED <<folders, name, desc, flag, epoch, aepoch>>
+  /\ UNCHANGED <<folders, name, desc, flag, epoch, aepoch, cflips>>
 
 UpdateSecret(f, s, v) ==
   /\ On("UpdateSecret") /\ Exists(f) /\ sec[f][s] # None /\ sec[f][s] # v
   /\ sec' = [sec EXCEPT ![f][s] = v]
   /\ out' = Out("UpdateSecret", [NoDelta EXCEPT ![f] = <<<<"UpdateSecret", s>>>>], <<>>, {})
-  /\ UNCHANGED <<folders, name, desc, flag, epoch, aepoch>>
+  /\ UNCHANGED <<folders, name, desc, flag, epoch, aepoch, cflips>>
 
 DeleteSecret(f, s) ==
   /\ On("DeleteSecret") /\ Exists(f) /\ sec[f][s] # None
   /\ sec' = [sec EXCEPT ![f][s] = None]
   /\ out' = Out("DeleteSecret", [NoDelta EXCEPT ![f] = <<<<"DeleteSecret", s>>>>], <<>>, {})
-  /\ UNCHANGED <<folders, name, desc, flag, epoch, aepoch>>
+  /\ UNCHANGED <<folders, name, desc, flag, epoch, aepoch, cflips>>
 
 (* move = create under a NEW id in the target, then delete in the source   *)
 MoveCore(f, g, s) ==
@@ -90,7 +92,7 @@ MoveCore(f, g, s) ==
   /\ sec' = [sec EXCEPT ![g][s] = sec[f][s], ![f][s] = None]
   /\ out' = Out("MoveCore", [NoDelta EXCEPT ![g] = <<<<"CreateSecret", s>>>>,
                                       ![f] = <<<<"DeleteSecret", s>>>>], <<>>, {})
-  /\ UNCHANGED <<folders, name, desc, flag, epoch, aepoch>>
+  /\ UNCHANGED <<folders, name, desc, flag, epoch, aepoch, cflips>>
 
 MoveSecret(f, g, s) == On("MoveSecret") /\ f # "a" /\ g # "a" /\ MoveCore(f, g, s)
 Archive(f, s)       == On("Archive") /\ f # "a" /\ MoveCore(f, "a", s)
@@ -108,7 +110,7 @@ CreateFolder(f) ==
   /\ epoch' = [epoch EXCEPT ![f] = 0]
   /\ out' = Out("CreateFolder", [NoDelta EXCEPT ![f] = <<<<"CreateVault">>>>],
                 <<<<"CreateFolder", f>>>>, {f})
-  /\ UNCHANGED aepoch
+  /\ UNCHANGED <<aepoch, cflips>>
 
 DeleteFolder(f) ==
   /\ On("DeleteFolder") /\ f \in folders
@@ -119,27 +121,27 @@ DeleteFolder(f) ==
   /\ sec' = [sec EXCEPT ![f] = [s \in Slots |-> None]]
   /\ epoch' = [epoch EXCEPT ![f] = 0]
   /\ out' = Out("DeleteFolder", NoDelta, <<<<"DeleteFolder", f>>>>, {})
-  /\ UNCHANGED aepoch
+  /\ UNCHANGED <<aepoch, cflips>>
 
 RenameFolder(f, n) ==
   /\ On("RenameFolder") /\ f \in MetaFolders /\ Exists(f) /\ name[f] # n
   /\ name' = [name EXCEPT ![f] = n]
   /\ out' = Out("RenameFolder", [NoDelta EXCEPT ![f] = <<<<"SetVaultName", n>>>>],
                 <<<<"RenameFolder", f>>>>, {})
-  /\ UNCHANGED <<folders, desc, flag, sec, epoch, aepoch>>
+  /\ UNCHANGED <<folders, desc, flag, sec, epoch, aepoch, cflips>>
 
 SetDescription(f, e) ==
   /\ On("SetDescription") /\ f \in MetaFolders /\ Exists(f) /\ desc[f] # e
   /\ desc' = [desc EXCEPT ![f] = e]
   /\ out' = Out("SetDescription", [NoDelta EXCEPT ![f] = <<<<"SetVaultMeta">>>>], <<>>, {})
-  /\ UNCHANGED <<folders, name, flag, sec, epoch, aepoch>>
+  /\ UNCHANGED <<folders, name, flag, sec, epoch, aepoch, cflips>>
 
 SetFlags(f) ==
   /\ On("SetFlags") /\ f \in MetaFolders /\ f \in folders
   /\ flag' = [flag EXCEPT ![f] = IF flag[f] = "plain" THEN "marked" ELSE "plain"]
   /\ out' = Out("SetFlags", [NoDelta EXCEPT ![f] = <<<<"SetVaultFlags">>>>],
                 <<<<"UpdateFolder", f>>>>, {})
-  /\ UNCHANGED <<folders, name, desc, sec, epoch, aepoch>>
+  /\ UNCHANGED <<folders, name, desc, sec, epoch, aepoch, cflips>>
 
 ---------------------------------------------------------------------------
 (* Reload: nothing the account serves may change *)
@@ -175,13 +177,23 @@ ChangeFolderPassword(f) ==
   /\ epoch' = [epoch EXCEPT ![f] = @ + 1]
   /\ out' = Out("ChangeFolderPassword", [NoDelta EXCEPT ![f] = Compacted(f)],
                 <<<<"ChangeFolderPassword", f>>>>, {f})
-  /\ UNCHANGED <<folders, name, desc, flag, sec, aepoch>>
+  /\ UNCHANGED <<folders, name, desc, flag, sec, aepoch, cflips>>
 
 ChangeAccountPassword ==
   /\ On("ChangeAccountPassword") /\ aepoch < MaxEpoch
   /\ aepoch' = aepoch + 1
   /\ out' = Out("ChangeAccountPassword", NoDelta, <<>>, {})
-  /\ UNCHANGED <<folders, name, desc, flag, sec, epoch>>
+  /\ UNCHANGED <<folders, name, desc, flag, sec, epoch, cflips>>
+
+(* change_cipher converts every folder (and the identity folder) to the    *)
+(* other cipher: each folder's vault and log are rebuilt, the data served  *)
+(* stays the same                                                          *)
+ChangeCipher ==
+  /\ On("ChangeCipher") /\ cflips < MaxEpoch
+  /\ cflips' = cflips + 1
+  /\ out' = Out("ChangeCipher", [f \in AllFolders |-> IF Exists(f) THEN Compacted(f) ELSE NoDelta[f]],
+                <<>>, {f \in AllFolders : Exists(f)})
+  /\ UNCHANGED <<folders, name, desc, flag, sec, epoch, aepoch>>
 
 ---------------------------------------------------------------------------
 Next ==
@@ -196,6 +208,7 @@ Next ==
   \/ SignOutIn
   \/ \E f \in AllFolders : LockUnlock(f) \/ Compact(f) \/ ChangeFolderPassword(f)
   \/ ChangeAccountPassword
+  \/ ChangeCipher
 
 Spec == Init /\ [][Next]_vars
 
@@ -209,7 +222,7 @@ OnlyExistingHold == \A f \in UserFolders \ folders : Live(f) = {}
 (* reload, lock/unlock, compaction and key changes never change what is    *)
 (* served (C01 sentence 2, C12 sentence 1)                                  *)
 Preserving == {"SignOutIn", "LockUnlock", "Compact", "ChangeFolderPassword",
-               "ChangeAccountPassword"}
+               "ChangeAccountPassword", "ChangeCipher"}
 ServedUnchanged ==
   [][out'.act \in Preserving =>
         <<folders, name, desc, flag, sec>>' = <<folders, name, desc, flag, sec>>]_vars
@@ -224,4 +237,5 @@ TypeOK ==
   /\ folders \subseteq UserFolders
   /\ \A f \in AllFolders : epoch[f] <= MaxEpoch
   /\ aepoch <= MaxEpoch
+  /\ cflips <= MaxEpoch
 =============================================================================
